@@ -340,4 +340,46 @@ theorem resetAll_eq_mkVars (rs : List (Rec R)) (t : Nat) (h : ∀ r ∈ rs, r.hi
     simp only [resetAll, List.map_cons, mkVars]
     rw [reset_eq_mkVar r t w (h r (by simp)), ih (fun r' hr' => h r' (by simp [hr']))]
 
+/-! ### a clear/reset cycle followed by a program is a program on an empty tape -/
+
+theorem execFrom_append (h : Nat) (env : Nat → R) (a b : Prog R) :
+    ∀ (w : World R) (recs : List (Rec R)),
+      Prog.execFrom h env (a ++ b) w recs =
+        match Prog.execFrom h env a w recs with
+        | (w', .ok recs') => Prog.execFrom h env b w' recs'
+        | (w', .panic k) => (w', .panic k) := by
+  induction a with
+  | nil => intro w recs; rfl
+  | cons ins rest ih =>
+    intro w recs
+    simp only [List.cons_append, Prog.execFrom]
+    rcases hres : Instr.exec h env recs w ins with ⟨w1, out⟩
+    cases out with
+    | ok r => simp only; exact ih _ _
+    | panic k => rfl
+
+/-- creating the variables `xs` on tape `t` is running `xs.length` `var` instructions whose
+    inputs are `xs` -/
+theorem mkVars_eq_exec (t : Nat) (env : Nat → R) (xs : List R) :
+    ∀ (w : World R) (recs : List (Rec R)),
+      (∀ j (hj : j < xs.length), env (recs.length + j) = xs[j]) →
+      Prog.execFrom t env (xs.map fun _ => (Instr.var : Instr R)) w recs
+        = ((mkVars xs t w).2, .ok (recs ++ (mkVars xs t w).1)) := by
+  induction xs with
+  | nil => intro w recs _; simp [Prog.execFrom, mkVars]
+  | cons x rest ih =>
+    intro w recs henv
+    have h0 : env recs.length = x := by
+      have := henv 0 (by simp)
+      simpa using this
+    simp only [List.map_cons, Prog.execFrom, Instr.exec, okStep, h0, mkVars]
+    rw [ih (Rec.mkVar x t w).2 (recs ++ [(Rec.mkVar x t w).1])
+      (by
+        intro j hj
+        have := henv (j + 1) (by simp; omega)
+        simp only [List.length_append, List.length_singleton]
+        rw [show recs.length + 1 + j = recs.length + (j + 1) by omega, this]
+        simp)]
+    simp [List.append_assoc]
+
 end EasyMl
